@@ -35,7 +35,8 @@ JNULL, JBOOL, JINT, JFLOAT, JSTR, JLIST, JDICT = range(7)
 
 def json_facts(term):
     j = J()
-    return [j["kind"](term) >= 0, j["kind"](term) <= 6, j["len"](term) >= 0]
+    return [j["kind"](term) >= 0, j["kind"](term) <= 6, j["len"](term) >= 0,
+            z3.Implies(j["kind"](term) == JSTR, j["len"](term) == z3.Length(j["str"](term)))]
 
 
 def json_truthy(term):
@@ -337,6 +338,9 @@ def order(sx, op, a, b, st, node):
 
 # ---------------------------------------------------------------- arithmetic and friends
 def binop(sx, op, a, b, st, node):
+    for x in (a, b):
+        if isinstance(x, Conc) and hasattr(x.v, "__pyvc_binop__"):
+            return x.v.__pyvc_binop__(sx, op, a, b, st, node)
     a0, b0 = a, b
     a = sx.deref(sx.lift(a) if isinstance(a, Conc) and not isinstance(a.v, (tuple, dict)) else a, st)
     b = sx.deref(sx.lift(b) if isinstance(b, Conc) and not isinstance(b.v, (tuple, dict)) else b, st)
@@ -519,6 +523,9 @@ def index(sx, c, k, st, node):
         return outs
     if isinstance(t, V._Json):
         return json_index(sx, c, k, st, node)
+    if isinstance(t, V.Map):
+        kk = sx.coerce(k, t.k, st)
+        return [R(st, Val(t.v, z3.Select(c.term, kk.term)))]
     if isinstance(t, V.Opt):
         outs = []
         isn = t.is_none(c.term)
